@@ -26,14 +26,14 @@ CLAIMED = {
          'outside: every operation whose diff carries cell content (input, arrays, clears, cell styles, borders, named styles, paste, autofill, defined names, conditional formats, rename/duplicate sheet, locale/timezone/name/theme) and every structural operation on a sheet that holds cells (parser, set_user_input, evaluator); selection/view state is not compared; pre-state built directly (intercepted Model::from_workbook), history built by the operation itself; spans/counts of range operations <=3 lines (the operations loop over them)'),
  'C28': ('after each of the 19 operations, its undo and its redo, and after set_selected_sheet/cell/range and arrow up/left/down/right with unconstrained arguments (Ok or Err): selected sheet < sheet count, selected cell inside the rectangle spanned by the selected range, all inside the grid',
          'outside: page up/down, area selecting, navigate-to-edge and range expansion (pixel sums over float sizes), duplicate_sheet, sheets with cells; arrow down/right start within 3 lines of the top-left visible cell'),
- 'C12': ('(a) one reference: stringify_reference under row/column insertion (all four $ combinations, any in-grid context cell/target/position/count, same or other sheet) equals the insertion map on cells, off-grid => #REF!; (b) ranges: the tree printer to_string_displaced on Node::RangeKind - both corners follow the map (interior insertion grows the range), whole-column/whole-row ranges stay, other-sheet edits leave it alone (coordinates <=120 rows x 30 columns quick, whole grid thorough); (c) the real Model::insert_rows/insert_columns on a cell-free sheet: column descriptors, row records and hyperlinks land on the shifted line (<=2 descriptors/records, 1 link, any position/count)',
-         'outside: cell content/value type/style moving through move_cell (text re-entry via set_user_input), CSE arrays, defined names, spills, recomputed values, the parser that produced the node; oracle (a)/(b) trusts the same corner printer with no edit to render the expected coordinates'),
- 'C13': ('(a) one reference under row/column deletion: deleted band => #REF!, after => shifted, before => unchanged; (b) ranges through to_string_displaced: each corner by the deletion map, corner on a deleted line => #REF!, whole-column/row ranges untouched; (c) real Model::delete_rows/delete_columns on cell-free sheets: descriptors (cases A-F), row records and links outside the band keep their attributes at the shifted line, links inside the band are dropped',
-         'outside: cell content moving (move_cell re-entry, locale), recomputed values, defined names'),
- 'C14': ('(a) displace_cf_row/col: insert k at p then delete k at p is the identity on every coordinate not pushed off the grid; (b) real Model::insert_columns;delete_columns and insert_rows;delete_rows on cell-free sheets: every column descriptor / row record read at a symbolic probe and the hyperlink map are unchanged, descriptors stay well-formed',
-         'outside: cell content, value types, formula text, computed values (all go through text re-entry and the parser)'),
- 'C15': ('(a) single row/column move rewrites references by the move permutation (stringify_reference RowMove/ColumnMove, whole grid); (b) chain of single moves on CF coordinates = block permutation (block <=2 quick / <=3 thorough); (c) real Model::move_rows_action / move_columns_action on cell-free sheets: row records, observable column attributes (width when shown, hidden, style) and hyperlinks land at the block-permuted line (block <=3 rows / <=2 columns, |offset| <=2 quick; <=3,<=3 thorough)',
-         'outside: cell content re-entry, array-formula split checks (can_move_*), ranges under moves, values; column widths are the concrete values 8/13/21/34 (exact under the x9,/9 pixel conversion the move performs)'),
+ 'C12': ('(a) one reference: stringify_reference under row/column insertion (all four $ combinations, any in-grid context cell/target/position/count, same or other sheet) equals the insertion map on cells, off-grid => #REF!; (b) ranges: the tree printer to_string_displaced on Node::RangeKind - both corners follow the map (interior insertion grows the range), whole-column/whole-row ranges stay, other-sheet edits leave it alone (coordinates <=120 rows x 30 columns quick, whole grid thorough); (c) the real Model::insert_rows/insert_columns on a cell-free sheet: column descriptors, row records and hyperlinks land on the shifted line (<=2 descriptors/records, 1 link, any position/count); (d) cells with content: the same real Model operation on a sheet holding one cell at a symbolic position - a number (1.5, 123), a boolean, a shared string, an empty styled cell or the quote-prefixed text \'123, default or bold style, next to a styled column - keeps its content, value type and style at the mapped position and nothing else appears (move_cell -> display text -> set_user_input -> number recogniser / booleans / errors / shared strings / style pool, executed from the MIR; en and de locale)',
+         'outside: formulas and CSE arrays in cells (parser/evaluator), cell contents other than the six kinds above, defined names, spills, recomputed values, the parser that produced the node; oracle (a)/(b) trusts the same corner printer with no edit to render the expected coordinates'),
+ 'C13': ('(a) one reference under row/column deletion: deleted band => #REF!, after => shifted, before => unchanged; (b) ranges through to_string_displaced: each corner by the deletion map, corner on a deleted line => #REF!, whole-column/row ranges untouched; (c) real Model::delete_rows/delete_columns on cell-free sheets: descriptors (cases A-F), row records and links outside the band keep their attributes at the shifted line, links inside the band are dropped; (d) cells with content under deletion: the same real Model operation on a sheet holding one cell at a symbolic position - a number (1.5, 123), a boolean, a shared string, an empty styled cell or the quote-prefixed text \'123, default or bold style, next to a styled column - keeps its content, value type and style at the mapped position and nothing else appears (move_cell -> display text -> set_user_input -> number recogniser / booleans / errors / shared strings / style pool, executed from the MIR; en and de locale)',
+         'outside: formulas in cells (parser/evaluator), cell contents other than the six kinds listed, recomputed values, defined names'),
+ 'C14': ('(a) displace_cf_row/col: insert k at p then delete k at p is the identity on every coordinate not pushed off the grid; (b) real Model::insert_columns;delete_columns and insert_rows;delete_rows on cell-free sheets: every column descriptor / row record read at a symbolic probe and the hyperlink map are unchanged, descriptors stay well-formed; (c) insert;delete on a sheet holding one cell of the six content kinds of C12(d): the cell record (content, type, style) is unchanged',
+         'outside: formulas in cells, formula text, computed values (parser/evaluator), contents other than the six kinds'),
+ 'C15': ('(a) single row/column move rewrites references by the move permutation (stringify_reference RowMove/ColumnMove, whole grid); (b) chain of single moves on CF coordinates = block permutation (block <=2 quick / <=3 thorough); (c) real Model::move_rows_action / move_columns_action on cell-free sheets: row records, observable column attributes (width when shown, hidden, style) and hyperlinks land at the block-permuted line (block <=3 rows / <=2 columns, |offset| <=2 quick; <=3,<=3 thorough); (d) block moves of rows (block <=2, |offset| <=2) and single-column moves on a sheet holding one cell of the six content kinds of C12(d): content, type and style arrive at the permuted position',
+         'outside: formulas in cells, array-formula split checks (can_move_*), ranges under moves, values; column widths are the concrete values 8/13/21/34 (exact under the x9,/9 pixel conversion the move performs)'),
  'C22': ('column letters <-> numbers bijective (one symbolic i32 over all values; every ASCII string of length 0..=4); every valid sheet name over printable ASCII (<=2 chars quick, <=3 thorough), quoted as quote_name quotes it and followed by !A1, is read back by the real formula lexer as a reference into exactly that sheet',
          'outside: A1/R1C1 print->parse of references and ranges through the parser (the A1 printer itself is checked against an independent text builder under C16), longer and non-ASCII names'),
  'C27': ('column descriptors stay sorted and disjoint (min<=max) and row records unique after one Model-level structural edit (insert/delete any position and count, block move) and after each Worksheet attribute setter (ids C27.* inside the C29 harnesses), from an arbitrary well-formed in-grid layout (inductive step, <=2 descriptors/records)',
